@@ -379,6 +379,19 @@ def witness_for(binary, berr, label, inputs):
     rc, out, err = do_replay(binary, label, inputs)
     nz = {k: v for k, v in sorted(inputs.items()) if v}
     if rc == 1:
+        # shrink on the REAL code: zero every input the violation does not depend on, then try small values
+        cur = dict(nz)
+        for k in sorted(cur):
+            for cand in (0, 1):
+                if cur.get(k) in (None, cand):
+                    break
+                trial = dict(cur)
+                trial[k] = cand
+                r2, o2, e2 = do_replay(binary, label, trial)
+                if r2 == 1:
+                    cur, out = {a: b for a, b in trial.items() if b}, o2
+                    break
+        inputs, nz = cur, dict(sorted(cur.items()))
         try:
             obs = json.loads(out.split("\n")[-1])
         except ValueError:
@@ -422,6 +435,9 @@ def run(tier="quick", seed=0, pid="C06"):
     linemaps = {}
     with concurrent.futures.ThreadPoolExecutor(16) as ex:
         for h in HARNESSES:
+            need = {"connect4": ["connect4"], "kprobe": ["tcp_v4_connect"], "twostep": ["connect4", "tcp_v4_connect"]}[h]
+            if any(n not in fl for n in need):
+                continue   # anchor missing (already reported as undecided): a call to an undefined function proves/refutes nothing
             src, lm = gen_harness(h, clauses, False)
             linemaps["h_" + h] = lm
             jobs["h_" + h] = ex.submit(build_and_check, wd, "h_" + h, src, "contract_" + h, [], ["--trace"], timeout, cmds)
@@ -492,7 +508,7 @@ def run(tier="quick", seed=0, pid="C06"):
         second = {}
         with concurrent.futures.ThreadPoolExecutor(16) as ex:
             for name in ["h_" + h for h in HARNESSES] + ["h_layout"]:
-                if results[name]["error"]:
+                if name not in results or results[name]["error"]:
                     continue
                 binf = name + (".dfcc.gb" if name != "h_layout" else ".gb")
                 second[(name, "cadical")] = ex.submit(run_cbmc, wd, name, binf, ["--sat-solver", "cadical"], timeout, cmds)
